@@ -3773,3 +3773,262 @@ func ruleArithmeticOnNumbersOnly(c *core.Ctx) {
 		}
 	}
 }
+
+// F1: a fold keeps its result. Inside a loop, a call of a module function of the form `r, err := F(acc, x)` — acc a local
+// declared in front of the loop, r of acc's type — continues the fold only if r goes back into acc. Discarding r
+// (`_, err := F(acc, x)`) turns "the common type of all cases" into "the type of the first case, checked against each".
+func ruleFoldKeepsResult(c *core.Ctx) {
+	const rule = "F1"
+	c.Rule(rule, "in a loop, the result of a module function applied to an accumulator declared outside the loop (`r, err := F(acc, x)`, r of acc's type) is not discarded", 1)
+	n := 0
+	for _, d := range c.AllDecls() {
+		p := c.DeclPkg(d)
+		if p == nil || d.Body == nil || c.IsTestFile(d.Pos()) || !strings.HasPrefix(p.PkgPath, core.Mod) {
+			continue
+		}
+		info := p.TypesInfo
+		ast.Inspect(d.Body, func(nn ast.Node) bool {
+			var body *ast.BlockStmt
+			switch l := nn.(type) {
+			case *ast.ForStmt:
+				body = l.Body
+			case *ast.RangeStmt:
+				body = l.Body
+			default:
+				return true
+			}
+			ast.Inspect(body, func(m ast.Node) bool {
+				as, ok := m.(*ast.AssignStmt)
+				if !ok || len(as.Rhs) != 1 || len(as.Lhs) < 2 {
+					return true
+				}
+				ce, ok := ast.Unparen(as.Rhs[0]).(*ast.CallExpr)
+				if !ok {
+					return true
+				}
+				f := core.Callee(info, ce)
+				if f == nil || !core.InModule(f) {
+					return true
+				}
+				sig, _ := f.Type().(*types.Signature)
+				if sig == nil || sig.Results().Len() < 2 {
+					return true
+				}
+				rt := sig.Results().At(0).Type()
+				var acc types.Object
+				for _, a := range ce.Args {
+					if o := identObj(info, a); o != nil && o.Pos() < nn.Pos() && o.Parent() != nil && o.Pkg() != nil && o.Parent() != o.Pkg().Scope() && types.Identical(o.Type(), rt) {
+						// declared in front of the loop, in this function
+						if o.Pos() >= d.Body.Pos() {
+							acc = o
+						}
+					}
+				}
+				if acc == nil {
+					return true
+				}
+				// is acc assigned anywhere in the loop at all? (a fold, not a comparison against a fixed value)
+				n++
+				key := fmt.Sprintf("%s/%s(%s, …)", c.FuncName(d), f.Name(), acc.Name())
+				id0, isId := as.Lhs[0].(*ast.Ident)
+				discarded := isId && id0.Name == "_"
+				c.Check(!discarded, rule, key, as.Pos(), "the result continues the fold",
+					fmt.Sprintf("the first result of %s(%s, …) is discarded inside the loop: `%s` keeps the value it had after the first iteration and the later elements are only checked against it, never merged into it", f.Name(), acc.Name(), acc.Name()))
+				return true
+			})
+			return true
+		})
+	}
+	if n == 0 {
+		c.Undecided(rule, "anchor/fold steps", 0, "no fold step of the form r, err := F(acc, x) found in a loop")
+	}
+}
+
+// L2: lists that belong together stay together. Two slices that one loop appends to in lockstep (one element each per
+// iteration) describe the same items by position; sorting, reversing or filtering one of them alone pairs every item
+// with another item's data (version label i with the model of version j).
+func ruleParallelSlicesStayAligned(c *core.Ctx) {
+	const rule = "L2"
+	c.Rule(rule, "two slices appended to in lockstep by one loop and handed to one call are never reordered separately (sort.*, slices.Sort*, reverse) before that call", 1)
+	n := 0
+	for _, d := range c.AllDecls() {
+		p := c.DeclPkg(d)
+		if p == nil || d.Body == nil || c.IsTestFile(d.Pos()) || !strings.HasPrefix(p.PkgPath, core.Mod) {
+			continue
+		}
+		info := p.TypesInfo
+		ast.Inspect(d.Body, func(nn ast.Node) bool {
+			var body *ast.BlockStmt
+			switch l := nn.(type) {
+			case *ast.ForStmt:
+				body = l.Body
+			case *ast.RangeStmt:
+				body = l.Body
+			default:
+				return true
+			}
+			// slices appended to at the top level of the body (or under the same conditions): x = append(x, one)
+			var appended []types.Object
+			for _, st := range body.List {
+				as, ok := st.(*ast.AssignStmt)
+				if !ok || len(as.Lhs) != 1 || len(as.Rhs) != 1 {
+					continue
+				}
+				ce, ok := ast.Unparen(as.Rhs[0]).(*ast.CallExpr)
+				if !ok || len(ce.Args) != 2 {
+					continue
+				}
+				if id, isId := ast.Unparen(ce.Fun).(*ast.Ident); !isId || id.Name != "append" {
+					continue
+				}
+				o := identObj(info, as.Lhs[0])
+				if o != nil && identObj(info, ce.Args[0]) == o && o.Pos() < nn.Pos() {
+					appended = append(appended, o)
+				}
+			}
+			if len(appended) < 2 {
+				return true
+			}
+			// handed to one call together
+			for i := 0; i < len(appended); i++ {
+				for j := i + 1; j < len(appended); j++ {
+					a, b := appended[i], appended[j]
+					var together *ast.CallExpr
+					ast.Inspect(d.Body, func(m ast.Node) bool {
+						ce, ok := m.(*ast.CallExpr)
+						if !ok || ce.Pos() < nn.End() {
+							return true
+						}
+						ha, hb := false, false
+						for _, arg := range ce.Args {
+							if identObj(info, arg) == a {
+								ha = true
+							}
+							if identObj(info, arg) == b {
+								hb = true
+							}
+						}
+						if ha && hb && together == nil {
+							together = ce
+						}
+						return true
+					})
+					if together == nil {
+						continue
+					}
+					n++
+					key := fmt.Sprintf("%s/%s+%s", c.FuncName(d), a.Name(), b.Name())
+					bad := ""
+					var at token.Pos = together.Pos()
+					ast.Inspect(d.Body, func(m ast.Node) bool {
+						ce, ok := m.(*ast.CallExpr)
+						if !ok || ce.Pos() < nn.End() || ce.Pos() > together.Pos() || len(ce.Args) == 0 {
+							return true
+						}
+						f := core.Callee(info, ce)
+						if f == nil || f.Pkg() == nil {
+							return true
+						}
+						reorders := (f.Pkg().Path() == "sort" && (strings.HasPrefix(f.Name(), "S") || f.Name() == "Stable")) ||
+							(f.Pkg().Path() == "slices" && (strings.HasPrefix(f.Name(), "Sort") || f.Name() == "Reverse" || f.Name() == "Compact" || strings.HasPrefix(f.Name(), "Delete")))
+						if !reorders {
+							return true
+						}
+						o := identObj(info, ce.Args[0])
+						if o == a || o == b {
+							bad = fmt.Sprintf("%s.%s(%s) reorders one of the two lists", f.Pkg().Name(), f.Name(), o.Name())
+							at = ce.Pos()
+						}
+						return true
+					})
+					c.Check(bad == "", rule, key, at, "the two lists reach the call in the order the loop built them",
+						bad+" that the loop filled position by position and that are handed to "+types.ExprString(together.Fun)+" together: element i of one no longer belongs to element i of the other")
+				}
+			}
+			return true
+		})
+	}
+	if n == 0 {
+		c.Undecided(rule, "anchor/parallel slices", 0, "no pair of slices filled in lockstep and passed to one call found")
+	}
+}
+
+// N1c: diagnostics carry no wall-clock time. Every zerolog.ConsoleWriter the module configures excludes the timestamp
+// part (PartsExclude contains "time" — zerolog's TimestampFieldName): otherwise every ERR/WRN line starts with the
+// local time and the output of two runs on the same input differs.
+func ruleConsoleWriterWithoutTime(c *core.Ctx) {
+	const rule = "N1c"
+	c.Rule(rule, "every zerolog.ConsoleWriter literal of the module lists the timestamp field (\"time\" / zerolog.TimestampFieldName) in PartsExclude", 1)
+	n := 0
+	for _, d := range c.AllDecls() {
+		p := c.DeclPkg(d)
+		if p == nil || d.Body == nil || c.IsTestFile(d.Pos()) || !strings.HasPrefix(p.PkgPath, core.Mod) {
+			continue
+		}
+		info := p.TypesInfo
+		ast.Inspect(d.Body, func(nn ast.Node) bool {
+			cl, ok := nn.(*ast.CompositeLit)
+			if !ok {
+				return true
+			}
+			nt := core.NamedOf(info.TypeOf(cl))
+			if nt == nil || nt.Obj().Name() != "ConsoleWriter" || nt.Obj().Pkg() == nil || !strings.HasSuffix(nt.Obj().Pkg().Path(), "rs/zerolog") {
+				return true
+			}
+			n++
+			key := c.FuncName(d) + "/ConsoleWriter"
+			excluded := false
+			noTime := false
+			for _, e := range cl.Elts {
+				kv, ok := e.(*ast.KeyValueExpr)
+				if !ok {
+					continue
+				}
+				kid, _ := kv.Key.(*ast.Ident)
+				if kid == nil {
+					continue
+				}
+				if kid.Name == "NoColor" || kid.Name == "Out" {
+					continue
+				}
+				if kid.Name == "PartsExclude" {
+					ast.Inspect(kv.Value, func(m ast.Node) bool {
+						ex, ok := m.(ast.Expr)
+						if !ok {
+							return true
+						}
+						if tv, ok := info.Types[ex]; ok && tv.Value != nil && tv.Value.Kind() == constant.String && constant.StringVal(tv.Value) == "time" {
+							excluded = true
+						}
+						if se, ok := ex.(*ast.SelectorExpr); ok && se.Sel.Name == "TimestampFieldName" {
+							excluded = true
+						}
+						return true
+					})
+				}
+				if kid.Name == "PartsOrder" {
+					// an explicit order without the timestamp part also prints no time
+					hasTime := false
+					ast.Inspect(kv.Value, func(m ast.Node) bool {
+						if ex, ok := m.(ast.Expr); ok {
+							if tv, ok := info.Types[ex]; ok && tv.Value != nil && tv.Value.Kind() == constant.String && constant.StringVal(tv.Value) == "time" {
+								hasTime = true
+							}
+							if se, ok := ex.(*ast.SelectorExpr); ok && se.Sel.Name == "TimestampFieldName" {
+								hasTime = true
+							}
+						}
+						return true
+					})
+					noTime = !hasTime
+				}
+			}
+			c.Check(excluded || noTime, rule, key, cl.Pos(), "the timestamp part is excluded",
+				"the console writer does not exclude the timestamp part: every diagnostic line is prefixed with the local wall-clock time, so two runs on the same package print different text")
+			return true
+		})
+	}
+	if n == 0 {
+		c.Undecided(rule, "anchor/zerolog.ConsoleWriter", 0, "no ConsoleWriter literal found in the module")
+	}
+}
